@@ -388,14 +388,31 @@ pub fn scope<'a, F, R>(f: F) -> R
 where
     F: FnOnce(&Cqueue) -> R + 'a,
 {
-    let cqueue = Cqueue {
-        ev_queue: Queue::new(),
-        to_wake: AtomicOption::none(),
-        cnt: AtomicUsize::new(0),
-        selectors: Mutex::new(Vec::new()),
-        total: AtomicUsize::new(0),
-        is_panicking: AtomicBool::new(false),
-        _not_sync: PhantomData,
+    let ret = {
+        let cqueue = Cqueue {
+            ev_queue: Queue::new(),
+            to_wake: AtomicOption::none(),
+            cnt: AtomicUsize::new(0),
+            selectors: Mutex::new(Vec::new()),
+            total: AtomicUsize::new(0),
+            is_panicking: AtomicBool::new(false),
+            _not_sync: PhantomData,
+        };
+        // the drop of the cqueue blocks until all the select coroutines are finished, it
+        // must not do that while a panic (or the Cancel) of the owner unwinds this frame:
+        // the panic count is thread local, a coroutine that yields while it's unwinding
+        // leaves it raised on the worker thread. `thread::panicking()` is then true for
+        // all the coroutines that worker runs meanwhile, first of all the select
+        // coroutines we have just canceled: `check_cancel` would not raise their Cancel
+        // panic, they spin in their blocking call and we would wait for them forever.
+        // so catch the panic, drop the cqueue and only then go on with the unwinding
+        let ret = panic::catch_unwind(panic::AssertUnwindSafe(|| f(&cqueue)));
+        if ret.is_err() {
+            // the panic of the owner is the one to propagate, not those of the selectors
+            cqueue.is_panicking.store(true, Ordering::Relaxed);
+        }
+        ret
+        // the cqueue is dropped here, in place: the select coroutines have a ref to it
     };
-    f(&cqueue)
+    ret.unwrap_or_else(|e| panic::resume_unwind(e))
 }
